@@ -252,6 +252,19 @@ DoubleSupport::divide(
 
 
 
+// Converting a double that is out of range to an integral
+// type is undefined, so check the range first.
+static inline bool
+canConvertToLong(double     theValue)
+{
+    // -LONG_MIN is a power of 2, so it can be represented exactly.
+    const double    theLimit = -static_cast<double>(LONG_MIN);
+
+    return theValue >= -theLimit && theValue < theLimit;
+}
+
+
+
 double
 DoubleSupport::modulus(
             double  theLHS,
@@ -269,9 +282,14 @@ DoubleSupport::modulus(
     {
         return getNaN();
     }
-    else if (long(theLHS) == theLHS && long(theRHS) == theRHS)
+    else if (canConvertToLong(theLHS) == true &&
+             canConvertToLong(theRHS) == true &&
+             long(theLHS) == theLHS &&
+             long(theRHS) == theRHS)
     {
-        return long(theLHS) % long(theRHS);
+        // The remainder of a division by -1 is always 0, but
+        // the most negative long % -1 overflows and traps.
+        return long(theRHS) == -1 ? 0 : long(theLHS) % long(theRHS);
     }
     else
     {
